@@ -192,7 +192,12 @@ RV_<G_<NFT_, TC_, Manual, TRO_ HFSM2_IF_UTILITY_THEORY(, TR_, TU_, TG_), NSL_ HF
 	TransitionSets emptyTransitions;
 	PlanControl control{_core, emptyTransitions};
 
+	// entering clears a resumable prong that equals the entered one - keep the loaded ones
+	const typename Base::CompoForks resumable = _core.registry.compoResumable;
+
 	_apex.deepEnter(control);
+
+	_core.registry.compoResumable = resumable;
 
 	HFSM2_IF_STRUCTURE_REPORT(udpateActivity());
 }
